@@ -408,7 +408,7 @@ func (p *sparser) postfix(x SExpr) SExpr {
 		case p.accept("."):
 			name := p.identName()
 			// pkg-qualified call: ident.ident(
-			if id, ok := x.(*SIdent); ok && p.isOp("(") && isPkgName(id.Name) {
+			if id, ok := x.(*SIdent); ok && p.isOp("(") {
 				p.next()
 				args := p.args()
 				x = &SCall{Fun: id.Name + "." + name, Args: args}
